@@ -6,7 +6,8 @@
 use std::alloc::{GlobalAlloc, Layout, System};
 use std::sync::atomic::{AtomicBool, Ordering};
 
-const SLOTS: usize = 1 << 16;
+// 1 M slots: symbolising a panic backtrace (addr2line) alone keeps > 65 k blocks live
+const SLOTS: usize = 1 << 20;
 
 pub struct Audit;
 
@@ -17,6 +18,8 @@ struct Table {
 }
 
 static LOCK: AtomicBool = AtomicBool::new(false);
+/// set when a block could not be recorded (table full): "not live" can then no longer be told from "not recorded"
+static OVERFLOW: AtomicBool = AtomicBool::new(false);
 static mut TABLE: Table = Table { ptr: [0; SLOTS], size: [0; SLOTS], align: [0; SLOTS] };
 
 fn lock() {
@@ -60,6 +63,8 @@ unsafe fn record(p: usize, l: Layout) {
         t.ptr[i] = p;
         t.size[i] = l.size();
         t.align[i] = l.align();
+    } else {
+        OVERFLOW.store(true, Ordering::Relaxed);
     }
     unlock();
 }
@@ -75,6 +80,9 @@ unsafe fn release(p: usize, l: Layout, what: &str) {
     }
     if t.ptr[i] != p {
         unlock();
+        if OVERFLOW.load(Ordering::Relaxed) {
+            return;
+        }
         die("AUDIT-ALLOC: release of a block that is not live (double free or foreign pointer)\n");
     }
     let (s, a) = (t.size[i], t.align[i]);
